@@ -680,6 +680,21 @@ func Vec.ScaleF(k: f64) => *Vec {
 	return this
 }
 
+type Acc2 :struct {
+	n: i64
+}
+
+#wa:generic AddF AddI AddS
+func Acc2.Add(b: bool) {
+	if b {
+		this.n++
+	}
+}
+
+func Acc2.AddF(f: f64) { this.n += i64(f * 2) }
+func Acc2.AddI(i: i64) { this.n += i * 3 }
+func Acc2.AddS(s: string) { this.n += i64(len(s)) }
+
 type Celsius :f64
 type Kelvin :f64
 type Miles :int
@@ -730,7 +745,12 @@ func main {
 	for i, op := range ops {
 		acc += op(i+2, 3)
 	}
-	println(n, v.x, acc, sum3(1, 2, 3))
+	a2 := &Acc2{}
+	a2.Add(1) // an untyped constant: more than one alternative accepts it, the first listed wins
+	a2.Add(true)
+	a2.Add("xy")
+	a2.Add(2.5)
+	println(n, v.x, acc, sum3(1, 2, 3), a2.n)
 }
 `,
 }
